@@ -1,6 +1,7 @@
 import Driver.Util
 import Driver.Env
 import Driver.Cb
+import Driver.Draw
 import Driver.Views
 import Driver.Emu
 import Driver.Color
@@ -22,6 +23,7 @@ open Driver
 def dispatch (env : Env) (eng rest : String) : String :=
   match eng with
   | "cb" => Cb.run env.rw rest
+  | "draw" => Draw.run env rest
   | "vp" => Views.runVP rest
   | "box" => Views.runBox rest
   | "emu" => Emu.run env rest
